@@ -239,7 +239,7 @@ def stepD (cfg : Cfg) (acc : DAcc) (op : DOp) (res : DRes) (rowsAfter : Store) :
           -- candidates: allowed outcomes on x; pick the one reproducing the implementation's table
           let cands := (allowed acc.rows acc.now c rq pool).filterMap fun o =>
             match o with
-            | .ok x' _ d => if x' == x then some (clamp d Generated.Dhcp.defaultMinLease Generated.Dhcp.defaultMaxLease) else none
+            | .ok x' _ d => if x' == x then some (leaseFor d Generated.Dhcp.defaultMinLease Generated.Dhcp.defaultMaxLease (remainingOf acc.rows c x acc.now)) else none
             | .noAddress => none
           match cands.find? (fun L => canonRows (put acc.rows (grantRow c x acc.now L blob)) == canonRows rowsAfter) with
           | some L =>
